@@ -179,6 +179,12 @@ def build_dtype(spec, order):
     fields, align = spec
     if fields[0][0] is None:
         return np.dtype(order + fields[0][1])
+    if align == "view":
+        # the dtype of a multi-field selection taken out of file order (cat[['dec', 'ra']]): the fields are listed
+        # in the reverse of their offset order and the item keeps the width of the full row (a 3-byte gap in front)
+        packed = np.dtype([(n, order + c, s) if s else (n, order + c) for n, c, s in fields][::-1])
+        return np.dtype(dict(names=[n for n, _, _ in fields], formats=[packed.fields[n][0] for n, _, _ in fields],
+                             offsets=[3 + packed.fields[n][1] for n, _, _ in fields], itemsize=packed.itemsize + 5))
     return np.dtype([(n, order + c, s) if s else (n, order + c) for n, c, s in fields],
                     align=align)
 
@@ -460,9 +466,9 @@ def main(ctx):
             W.mem[...] ^= 0xFF
             if W.verify(out, d1, p1) or W.verify(out2, d2, p2):
                 return rec.fail(case, "copy: overwriting the input changed a result of %s" % sig)
-            before2 = out2.tobytes()
+            before2 = W.fieldbytes(out2)         # field bytes only: the padding bytes of a copy are not defined
             out[...] = np.zeros((), dtype=out.dtype)
-            if out2.tobytes() != before2 or W.mem.tobytes() != bytes(b ^ 0xFF for b in W.mem0):
+            if W.fieldbytes(out2) != before2 or W.mem.tobytes() != bytes(b ^ 0xFF for b in W.mem0):
                 return rec.fail(case, "copy: overwriting the result of %s changed another array" % sig)
         oc = "%s/%s/%s/%s" % (func, "inplace" if inplace else "copy", "keep" if keep else "retag",
                               "orderless" if d0 is None else ("swap" if swapped else "asis"))
@@ -497,6 +503,8 @@ def main(ctx):
             if build_dtype(sp, "<").itemsize != build_dtype((fs, False), "<").itemsize:
                 specs.append(sp)
                 naligned += 1
+        if 2 <= len(fs) <= ctx.pick(2, 3):
+            specs.append((fs, "view"))
 
     units = []
     for code in plain_codes:
@@ -695,6 +703,9 @@ def main(ctx):
     SEQ_CALLS = [(f, arr, keep) for f in ("to_native", "to_big_endian", "to_little_endian", "byteswap")
                  for arr in ("a", "b", "p", "q") for keep in (False, True) if not (keep and f != "byteswap" and arr in ("p",))]
     SEQ_CALLS += [("is_big_endian", arr, None) for arr in ("a", "b", "p", "q")]
+    if ctx.quick:
+        # depth 3 (call, edit of the result, call) on the structured tables and one plain array
+        SEQ_CALLS = [c for c in SEQ_CALLS if (c[1] in ("a", "b") and (not c[2] or c[0] == "byteswap")) or (c[1] == "q" and c[0] in ("to_native", "is_big_endian"))]
 
     def seq_run(c, pool):
         f, arr, keep = c
@@ -703,7 +714,7 @@ def main(ctx):
         r = getattr(nu, f)(pool[arr], inplace=False, keep_dtype=keep)
         return [r, np.array(repr(r.dtype.descr if r.dtype.names else r.dtype.str))]
 
-    call_sequences(ctx, "call-sequences", seq_pool, SEQ_CALLS, seq_run, lambda: [nu, ru], depth=ctx.pick(2, 3), nodedup_depth=3)
+    call_sequences(ctx, "call-sequences", seq_pool, SEQ_CALLS, seq_run, lambda: [nu, ru], depth=3, nodedup_depth=3, result_edits=True)
 
     # ------------------------------------------------------------ error path: read-only arrays, in place
     # an in-place conversion of an array that cannot be written must either succeed without touching it (nothing to
